@@ -28,7 +28,7 @@ from vlib.harness import InstanceResult, jsonable
 PROPERTY = 'C20'
 TECHNIQUE = 'symbolic execution of the real _reassign_precisions / optimize_prec_assignment on z3-real score / coefficient matrices: one path per order type (argmax/argsort forks), assignment and count obligations per path'
 FUNCTIONS_ENCODED = ['_reassign_precisions', 'optimize_prec_assignment', '_compute_cost', 'MPSConv2d/MPSLinear.get_cost (NE16)', 'ne16_latency functions']
-BOUNDS = {'quick': '(P, C) in {(2,2), (2,3), (3,2)} x all compositions of C as targets; whole function on one model (Conv2d 3x3 with 2 channels + Linear, precisions (2,8)/(2,4,8))',
+BOUNDS = {'quick': '(P, C) in {(2,2), (2,3), (3,2)} x all compositions of C as targets; whole function on one model (Conv2d 3x3 with 2 channels + Linear, precisions (2,8)/(2,4,8)); whole function additionally on a canonical score model per assignment; every violating assignment is compared with an executable reference of the recorded greedy',
           'thorough': '+ (2,4), (3,3); whole function with 3 channels'}
 OUTSIDE = ['matrices larger than the bound (the number of order types grows super-exponentially)', 'ties between scores', 'cost models other than NE16']
 ASSUMPTIONS = ['scores pairwise distinct', 'target counts sum to the number of channels']
